@@ -47,7 +47,7 @@ func StartServer(pigeon string) (*Server, error) {
 
 func (s *Server) start() error {
 	cmd := exec.Command(s.path)
-	cmd.Env = append(os.Environ(), "PIGEON_VERIF_ASTDUMP=1")
+	cmd.Env = append(os.Environ(), "PIGEON_VERIF_ASTDUMP=1", "GOMAXPROCS=1", "GOGC=400")
 	cmd.Stderr = nil
 	in, err := cmd.StdinPipe()
 	if err != nil {
